@@ -18,7 +18,7 @@ ASSUMPTIONS = ['unit norm within 1e-9 for quaternions, SO(3) membership within 1
                'acc and mag at least 1 degree from parallel, all samples non-zero (as in the statement)',
                'bounded to histories of length <= 3 over the 26 lattice directions / 6 poses; magnitudes 1e-3 ... 1e3',
                'default magnetic references are never used: every estimator gets an explicit dip / reference']
-REQUIRED_CLASSES = ['float32', 'single-frame', 'recursive', 'pose:level', 'pose:inverted', 'pose:vertical', 'history:jump']
+REQUIRED_CLASSES = ['float32', 'rate-ladder', 'containers', 'single-frame', 'recursive', 'pose:level', 'pose:inverted', 'pose:vertical', 'history:jump']
 MAG_Q = [(9.81, 45.0), (1.0, 1.0)]
 MAG_T = [(sa, sm) for sa in (1e-3, 9.81, 1e3) for sm in (1e-3, 45.0, 1e3)]
 GYR = [np.array([0.01, -0.02, 0.03]), np.array([1.0, -2.0, 0.5]), np.array([0.0, 0.0, 1e-3])]
@@ -230,6 +230,97 @@ def job_recursive(ctx, key, ci):
     ctx.sample({'filter': key, 'cfg': {k: (v.tolist() if hasattr(v, 'tolist') else v) for k, v in cfg.items()}, 'history': 'poses=025 gyr#1'})
 
 
+GYR_LADDER = [1e-15, 1e-12, 1e-9, 1e-8, 3e-8, 1e-7, 1e-6, 1e-4, 1.0, 30.0]
+GYR_DIRS = [np.array([0.0, 0.0, 1.0]), np.array([1.0, 0.0, 0.0]), np.array([0.3, -0.5, 0.4]) / math.sqrt(0.5)]
+CONTAINERS = [('list', lambda a: [float(x) for x in a]), ('tuple', lambda a: tuple(float(x) for x in a)), ('float32', lambda a: np.asarray(a, np.float32)),
+              ('int-list', None)]
+
+
+def job_gyro_ladder(ctx, key, ci):
+    """Angular rates over many decades (next to the exact-zero shortcuts of the propagation steps), batch and streaming entry points;
+    and the streaming entry point fed plain Python sequences / single-precision samples."""
+    r = rr.by_key(key)
+    cfg = r.cfgs[ci]
+    P6 = poses6()
+    for mi, gm in enumerate(GYR_LADDER):
+        for di, gd in enumerate(GYR_DIRS):
+            for pz in (0, 4, 5):
+                gv = gd * gm
+                acc = np.tile(P6[pz][0] * 9.81, (3, 1)); mag = np.tile(P6[pz][1] * 45.0, (3, 1)); g = np.tile(gv, (3, 1))
+                k = f'filter={key} cfg#{ci} rate={gm:g} dir#{di} pose#{pz}'
+                ctx.evals += 1
+                ctx.transitions += 3
+                try:
+                    np.random.seed(1)
+                    out = r.output(r.batch(g, acc, mag, cfg))
+                    ok, why = _valid_rows(out, 'q', 3)
+                    if not ok:
+                        ctx.fail(f'{key}: one valid attitude per sample (rate ladder)', k, why, 'finite real unit rows')
+                except Exception as ex:
+                    ctx.fail(f'{key}: raises (rate ladder)', k, f'{type(ex).__name__}: {ex}'[:120], 'valid attitudes')
+                if r.step_fn is not None:
+                    ctx.evals += 1
+                    try:
+                        np.random.seed(1)
+                        inst = r.fresh(cfg)
+                        q = np.array([1.0, 0.0, 0.0, 0.0])
+                        rows = []
+                        for _ in range(2):
+                            q = r.step(inst, q, gv, P6[pz][0] * 9.81, P6[pz][1] * 45.0 if r.has_mag else None)
+                            rows.append(np.array(q, float)); ctx.transitions += 1
+                        ok, why = _valid_rows(np.array(rows), 'q', 2)
+                        if not ok:
+                            ctx.fail(f'{key}: streaming update returns one valid attitude per sample (rate ladder)', k, why, 'finite real unit rows')
+                    except Exception as ex:
+                        ctx.fail(f'{key}: streaming update raises (rate ladder)', k, f'{type(ex).__name__}: {ex}'[:120], 'valid attitudes')
+                ctx.seen((key, ci, 'rate', mi, di, pz))
+        ctx.cls('rate-ladder')
+    # the same streaming step with the samples in other containers (values unchanged)
+    if r.step_fn is not None:
+        for cn, conv in CONTAINERS:
+            for pz in (0, 4, 5):
+                a = P6[pz][0] * 9.81; m = P6[pz][1] * 45.0; gv = GYR[1]
+                if cn == 'int-list':
+                    a = np.rint(a * 100); m = np.rint(m * 100); gv = np.array([1.0, -2.0, 1.0])
+                    cv = lambda x: [int(v) for v in x]
+                else:
+                    cv = conv
+                k = f'filter={key} cfg#{ci} stream container={cn} pose#{pz}'
+                ctx.evals += 1
+                try:
+                    np.random.seed(1)
+                    ref_inst = r.fresh(cfg)
+                    q_ref = np.array(r.step(ref_inst, np.array([1.0, 0, 0, 0]), gv, a, m if r.has_mag else None), float)
+                except Exception:
+                    continue                                     # judged by the ndarray checks above
+                try:
+                    np.random.seed(1)
+                    inst = r.fresh(cfg)
+                    q = np.array([1.0, 0.0, 0.0, 0.0])
+                    rows = []
+                    for _ in range(2):
+                        q = np.asarray(r.step_fn(inst, q, cv(gv), cv(a), cv(m) if r.has_mag else None))
+                        rows.append(np.array(q, float)); ctx.transitions += 1
+                    ok, why = _valid_rows(np.array(rows), 'q', 2, tol=1e-5 if cn == 'float32' else 1e-9)
+                    if not ok:
+                        ctx.fail(f'{key}: streaming update with {cn} samples returns one valid attitude per sample', k, why, 'finite real unit rows')
+                    elif cn != 'float32' and rq.qangle(rq.qunit(rows[0]), q_ref) > 1e-9:
+                        # (single precision is judged for validity only: a normalised-gradient filter at its exact equilibrium steps by gain*dt on rounding residue)
+                        ctx.fail(f'{key}: streaming update with {cn} samples = the answer for the same values as float64 arrays', k, rows[0], q_ref, 1e-9)
+                except TypeError as ex:
+                    if cn != 'int-list':                         # integer samples: a TypeError (casting) is a refusal, not judged
+                        ctx.fail(f'{key}: streaming update raises with {cn} samples', k, f'{type(ex).__name__}: {ex}'[:120], 'valid attitudes')
+                    else:
+                        ctx.outcome('int-refused')
+                except Exception as ex:
+                    ctx.fail(f'{key}: streaming update raises with {cn} samples', k, f'{type(ex).__name__}: {ex}'[:120], 'valid attitudes')
+                ctx.seen((key, ci, 'container', cn, pz))
+            ctx.cls('containers')
+    ctx.states += len(GYR_LADDER) * 9
+    ctx.traces += ctx.evals
+    ctx.sample({'filter': key, 'rates': GYR_LADDER, 'containers': [c[0] for c in CONTAINERS]})
+
+
 def run(ctx):
     # helper functions of ahrs.common.orientation (ecompass, am2DCM, am2q, acc2q) are not filters the package exports: C04 covers them
     helpers = ('ecompass', 'am2DCM', 'am2q', 'acc2q')
@@ -237,5 +328,6 @@ def run(ctx):
     for r in rr.registry():
         for ci in range(len(r.cfgs)):
             jobs.append(('job_recursive', (r.key, ci)))
+            jobs.append(('job_gyro_ladder', (r.key, ci)))
     core.run_jobs(ctx, __name__, jobs)
     ctx.notes['configurations'] = len(jobs)
